@@ -1,6 +1,6 @@
 (* C01 — SimpleMRS serialisation is lossless (token level). *)
 From Coq Require Import List NArith ZArith Bool.
-From PyD Require Import Base.Str Model.Mrs Model.SimpleMrs Proofs.SimpleMrsP.
+From PyD Require Import Base.Str Model.Mrs Model.Iso Model.SimpleMrs Proofs.SimpleMrsP.
 Import ListNotations.
 
 (* the decoder's unescaping inverts the encoder's escaping of constants,
@@ -8,3 +8,60 @@ Import ListNotations.
 Theorem C01_unescape_escape : forall s, unescape (escape s) = s.
 Proof. exact unescape_escape. Qed.
 Print Assumptions C01_unescape_escape.
+
+(* decoding the token stream of the encoder (any options, whatever the
+   lexer's classification of unquoted predicates, whatever follows) returns
+   top, index, predications (arguments in role order), constraints,
+   alignment and surface string exactly, minus the alignments when they are
+   suppressed; every variable whose properties were emitted carries them in
+   priority order *)
+Theorem C01_decode_of_encode : forall cls p l m toks vp_left rest,
+  mrs_wf m -> enc_mrs_full cls p l m = Some (toks, vp_left) ->
+  exists vars', dec_mrs (toks ++ rest) = Some (proj_mrs l m vars', rest) /\
+    forall v, getp v vp_left = [] -> getp v vars' = sort_props (getp v (if p then xm_vars m else [])).
+Proof. exact dec_enc_mrs. Qed.
+Print Assumptions C01_decode_of_encode.
+
+(* properties are written on the first mention of a variable and never again *)
+Theorem C01_first_mention_only : forall v vp tv vp', vp_ok vp -> enc_var v vp = Some (tv, vp') ->
+  getp v vp' = [] /\ enc_var v vp' = Some ([TSYM v], vp').
+Proof. exact first_mention_only. Qed.
+Print Assumptions C01_first_mention_only.
+
+(* every mentioned variable's properties are emitted *)
+Theorem C01_all_properties_emitted : forall cls l m toks vp_left,
+  vp_ok (xm_vars m) -> enc_mrs_full cls true l m = Some (toks, vp_left) ->
+  (forall v, In v (mentioned m) -> getp v vp_left = []) /\
+  (forall v, getp v (xm_vars m) = [] -> getp v vp_left = []).
+Proof. exact enc_mrs_clears. Qed.
+Print Assumptions C01_all_properties_emitted.
+
+(* lossless: if every variable with properties is mentioned (index, an
+   argument, an individual constraint) nothing at all is lost *)
+Theorem C01_lossless : forall cls l m toks vp_left rest,
+  mrs_wf m -> enc_mrs_full cls true l m = Some (toks, vp_left) ->
+  (forall v, getp v (xm_vars m) <> [] -> In v (mentioned m)) ->
+  exists vars', dec_mrs (toks ++ rest) = Some (proj_mrs l m vars', rest) /\
+    forall v, getp v vars' = sort_props (getp v (xm_vars m)).
+Proof. exact dec_enc_mrs_lossless. Qed.
+Print Assumptions C01_lossless.
+
+(* suppressing properties removes exactly the properties *)
+Theorem C01_properties_suppressed : forall cls l m toks vp_left rest,
+  mrs_wf m -> enc_mrs_full cls false l m = Some (toks, vp_left) ->
+  exists vars', dec_mrs (toks ++ rest) = Some (proj_mrs l m vars', rest) /\ forall v, getp v vars' = [].
+Proof. exact dec_enc_mrs_noprops. Qed.
+Print Assumptions C01_properties_suppressed.
+
+(* the sorts used by the encoder only reorder *)
+Theorem C01_sorts_are_permutations : forall ps args,
+  Permutation.Permutation (sort_props ps) ps /\ Permutation.Permutation (sort_roles args) args.
+Proof. exact sorts_are_permutations. Qed.
+Print Assumptions C01_sorts_are_permutations.
+
+(* non-vacuity: a structure with every feature meets the hypotheses *)
+Theorem C01_hypotheses_satisfiable :
+  mrs_wf ex_m /\ (forall v, getp v (xm_vars ex_m) <> [] -> In v (mentioned ex_m)) /\
+  exists toks vp, enc_mrs_full (fun _ => false) true true ex_m = Some (toks, vp) /\ length toks = 65%nat.
+Proof. exact (conj ex_wf (conj ex_expressible ex_encodes)). Qed.
+Print Assumptions C01_hypotheses_satisfiable.
